@@ -73,3 +73,17 @@ pub struct SessionState {
     // used for pubrel in qos2
     pub unacked_pubrels: VecDeque<u16>,
 }
+
+#[cfg(feature = "verif-snapshot")]
+impl Graveyard {
+    /// client id -> saved session (None for metrics-only entries), sorted
+    pub fn verif_state(&self) -> Vec<(String, Option<&SessionState>)> {
+        let mut v: Vec<_> = self
+            .connections
+            .iter()
+            .map(|(k, s)| (k.clone(), s.session_state.as_ref()))
+            .collect();
+        v.sort_by(|a, b| a.0.cmp(&b.0));
+        v
+    }
+}
